@@ -17,7 +17,12 @@ RefOpsF == {"ref_dangling", "ref_self", "ref_parent", "ref_wrong_kind", "ref_sca
 NilDeref == "runtime error: invalid memory address or nil pointer dereference"
 NoName == "unable to resolve reference to name"
 
-KnownNilPoints == {<<"ref_cycle_two", 46>>, <<"ref_dangling", 46>>, <<"ref_ext_empty", 13>>, <<"ref_ext_empty", 17>>, <<"ref_ext_empty", 27>>, <<"ref_ext_empty", 57>>, <<"ref_hash_only", 17>>, <<"ref_parent", 46>>, <<"ref_self", 17>>, <<"ref_self", 46>>, <<"ref_self", 173>>, <<"ref_wrong_kind", 46>>, <<"to_null", 2>>, <<"to_null", 13>>, <<"to_null", 16>>, <<"to_null", 22>>, <<"to_null", 43>>, <<"to_null", 46>>, <<"to_null", 167>>, <<"to_null", 195>>, <<"to_null", 198>>, <<"to_null", 204>>, <<"truncate_here", 166>>}
+(* nodes of the base document holding (or lying under) a position the loader never resolves: a reference  *)
+(* put there by any reference operator stays nil and is dereferenced later                                  *)
+UnresolvedRefNodes == {13, 17, 27, 46, 57, 173}
+(* (operator, node) points at which a null / truncated entry is dereferenced *)
+KnownNullPoints == {<<"to_null", 2>>, <<"to_null", 13>>, <<"to_null", 16>>, <<"to_null", 22>>, <<"to_null", 43>>, <<"to_null", 46>>, <<"to_null", 167>>, <<"to_null", 195>>, <<"to_null", 198>>, <<"to_null", 204>>, <<"truncate_here", 166>>}
+IsKnownNilPoint(m) == (m.op \in RefOpsF /\ m.node \in UnresolvedRefNodes) \/ <<m.op, m.node>> \in KnownNullPoints
 
 Panicked(obs) == {s \in DOMAIN obs : obs[s] = "panic"}
 
@@ -26,7 +31,7 @@ Class(line, bad) ==
    IF bad # {"returns_normally"} \/ \E s \in DOMAIN line.obs : line.obs[s] \in {"hang", "crash"} THEN "none"
    ELSE IF msg = NoName /\ Panicked(line.obs) = {"internalize"} /\ \E i \in DOMAIN ms : ms[i].op \in RefOpsF
         THEN "internalize_panics_unresolvable_ref_name"
-   ELSE IF msg = NilDeref /\ \E i \in DOMAIN ms : <<ms[i].op, ms[i].node>> \in KnownNilPoints
+   ELSE IF msg = NilDeref /\ \E i \in DOMAIN ms : IsKnownNilPoint(ms[i])
         THEN "nil_entry_dereferenced"
    ELSE "none"
 =============================================================================
